@@ -228,6 +228,63 @@ pub fn run_c01_auth(out: &mut Out, tier: &str, rng: &mut Rng) {
     }
 }
 
+/// The same properties one layer up: random configurations of known units under the real NetworkAuthority (receive /
+/// tick / command clones), random histories of unit frames, foreign frames, cycles, motion and engine commands.
+/// Used by the driver-level properties (C02, C08, C11, C12) so that the path through the authority is tied as well.
+pub fn run_generic_auth(out: &mut Out, tier: &str, rng: &mut Rng, what: &str) {
+    let thorough = tier == "thorough";
+    for _ in 0..(if thorough { 150 } else { 24 }) {
+        let mut drivers: Vec<DriverCfg> = vec![];
+        for _ in 0..(1 + rng.below(4)) {
+            let t = *rng.pick(&[None, Some(0u64), Some(3_600_000)]);
+            let d = known_driver(rng, t);
+            if !drivers.iter().any(|x| x.da == d.da) {
+                drivers.push(d);
+            }
+        }
+        let cfg = NetCfg { address: 0x27, name: default_name(), drivers };
+        let mut rig = match Rig::new(&cfg) {
+            Ok(r) => r,
+            Err(()) => continue,
+        };
+        let mut h = Hist { rig: &mut rig, ins: vec![], outs: vec![] };
+        h.setup();
+        h.cycle();
+        for _ in 0..(6 + rng.below(if thorough { 40 } else { 18 })) {
+            match rng.below(10) {
+                0 | 1 | 2 => {
+                    let d = rng.pick(&cfg.drivers).clone();
+                    let raw = frame_from_unit(rng, &d);
+                    h.frame(&raw);
+                }
+                3 => {
+                    // the same kind of frame from a node that is not the unit
+                    let d = rng.pick(&cfg.drivers).clone();
+                    let mut raw = frame_from_unit(rng, &d);
+                    raw[0] = *rng.pick(&[0x99u8, 0x27, d.da.wrapping_add(1)]);
+                    h.frame(&raw);
+                }
+                4 => {
+                    let mut data = [0u8; 8];
+                    for b in data.iter_mut() {
+                        *b = rng.byte();
+                    }
+                    let pgn = *rng.pick(&crate::drv::PGNS);
+                    h.frame(&raw_of(make_id(rng.below(8) as u8, pgn, *rng.pick(&[0x27u8, 0xFF]), rng.byte()), &data));
+                }
+                5 | 6 => h.cycle(),
+                7 => h.motion(&fmt::rand_motion(rng)),
+                8 => h.engine(&Engine { driver_demand: 0, actual_engine: 0, rpm: *rng.pick(&[0u16, 700, 805, 1234, 1500, 1999, 2100, 3000]), state: *rng.pick(&[EngineState::NoRequest, EngineState::Starting, EngineState::Stopping, EngineState::Request]) }),
+                _ => h.motion(&Motion::StopAll),
+            }
+        }
+        h.cycle();
+        let (ins, outs) = (h.ins.join(" "), h.outs.join(" "));
+        out.case(&format!("auth {} {}", cfg.tok(), ins), &outs, true);
+        out.count(&format!("authority-level history ({})", what));
+    }
+}
+
 pub fn run_c06_auth(out: &mut Out, tier: &str, rng: &mut Rng) {
     // raw can_frames with every DLC 0..8 into the real NetworkAuthority::recv, then a cycle and a command
     let thorough = tier == "thorough";
